@@ -144,6 +144,13 @@ into its own field of the `LogInput`); everything else is HMACed by the hash wal
 def handleE2E (fs : List String) : String :=
   let lst (s : String) : List String := if s = "-" then [] else s.splitOn ","
   match fs with
+  -- an audited request header: the configuration in force is the update's when it was stored, the earlier one when its
+  -- storage write failed (an update that answers with an error has no effect)
+  | ["hdr", upd, fault] =>
+    let toClear := upd = "to-clear"
+    if fault = "1" then "err:internal|hdr:" ++ (if toClear then "hmac" else "clear")
+    else if fault = "0" then "ok|hdr:" ++ (if toClear then "clear" else "hmac")
+    else "bad-op"
   | ["e2e", kind, reqEx, respEx, keys] =>
     let ex := if kind = "write" then some (lst reqEx) else if kind = "read" then some (lst respEx) else none
     match ex with
